@@ -156,6 +156,18 @@ def interpretAux (takesValue : Str → Bool) : Bool → List Str → List Role
 
 def interpret (takesValue : Str → Bool) (argv : List Str) : List Role := interpretAux takesValue false argv
 
+/-- A parser that stops reading options after its `n`-th operand (OpenSSH's getopt; `docker`
+followed by `docker exec`, whose flag sets are not interspersed: `exec` and the container are
+the two operands, everything after the container belongs to the command): like `interpretAux`
+until `n` operands have been seen, then everything is an operand. -/
+def interpretUntil (takesValue : Str → Bool) : Nat → Bool → List Str → List Role
+  | _, _, [] => []
+  | 0, _, _ :: rest => .operand :: interpretUntil takesValue 0 false rest
+  | n + 1, true, _ :: rest => .value :: interpretUntil takesValue (n + 1) false rest
+  | n + 1, false, a :: rest =>
+    if startsWithDash a then .option :: interpretUntil takesValue (n + 1) (takesValue a) rest
+    else .operand :: interpretUntil takesValue n false rest
+
 /-- The value-taking options among those Mutagen passes. -/
 def takesValue (a : Str) : Bool :=
   ["-p", "-P", "--user", "--workdir", "--config", "--host", "--context", "--tlscacert", "--tlscert", "--tlskey"].any
